@@ -42,6 +42,16 @@ class P(b1.Plugin):
                     continue                      # designated by being the unique field of type T
                 j = rng.randrange(n)
                 v.fields[j].markers.append((t, rng.random() < 0.5))
+        # now and then a designated field is called like its own conversion function (`#[educe(Into(X16, method(m_x16)))]
+        # m_x16: A8`): a binding of the field's name in the generated code would capture the call
+        for v in td.variants:
+            if v.shape == "named" and rng.random() < 0.2:
+                cands = [f for f in v.fields if any(with_m for _, with_m in f.markers)]
+                if cands:
+                    f = rng.choice(cands)
+                    nm = METHOD[[t for t, with_m in f.markers if with_m][0]][0]
+                    if all(g.name != nm for g in v.fields):
+                        f.name = nm
         for v in td.variants:
             for f in v.fields:
                 ms = []
